@@ -95,11 +95,11 @@ var originsQuick = []originV{
 	{true, "https://.xb.test", "empty-label-lookalike"},
 	{true, "http://x.a.test", "subdomain-other-scheme"},
 	{true, "https://f.test", "func-host"},
+	{true, "HTTPS://F.TEST", "func-host-upper-case"},
 	{true, "https://evil.test", "unrelated"},
 }
 
 var originsThorough = append(append([]originV(nil), originsQuick...),
-	originV{true, "HTTPS://F.TEST", "func-host-upper-case"},
 	originV{true, "https://f.test.evil.test", "configured-host-as-prefix"},
 	originV{true, "https://evil.test?.a.test", "suffix-in-query"},
 	originV{true, "https://evil.test#.a.test", "suffix-in-fragment"},
